@@ -313,6 +313,37 @@ def arbitrary_angles(chk, rng, count):
     return n
 
 
+def coarse_grids(chk):
+    """COARSE grids that under-resolve the peak (cells of 5 ... 25 m under a 2 ... 10 m tower, the receptor on a cell centre): the
+    midpoint values legitimately add up to more than one - every cell is still the closed form at its centre times its area"""
+    n = 0
+    for ph in PHYS:
+        if ph["zm"] > 12.0:
+            continue
+        for res in (5.0, 10.0, 25.0):
+            for wd in (None, 180.0, 33.0):
+                ext = 60 * res
+                dom = [-res / 2, ext - res / 2, -10.5 * res, 10.5 * res] if wd is None else [-10.5 * res, 10.5 * res, -res / 2, ext - res / 2] if wd == 180.0 else [-20.5 * res, 20.5 * res, -20.5 * res, 20.5 * res]
+                if wd == 180.0:
+                    dom = [-10.5 * res, 10.5 * res, -(ext - res / 2), res / 2]
+                gx, gy, ffm = call_fp(ph, dom, res, [0.0, 0.0], wd)
+                a = math.radians(90.0 if wd is None else wd)
+                ex, ey = math.sin(a), math.cos(a)
+                if wd is None or wd % 90.0 == 0.0:
+                    ex, ey = float(round(ex)), float(round(ey))
+                up = gx * ex + gy * ey
+                cr = -gx * ey + gy * ex
+                p = km_params(ph["zm"], ph["z0"], ph["ws"], ph["ustar"], ph["L"])
+                want = km_point(p, ph["sigma_v"], up, cr) * res ** 2
+                n += 1
+                sc = {"kind": "coarse_grid", "phys": ph, "grid_res": res, "wd": wd, "sum": float(np.sum(ffm)), "closed_form_sum": float(np.sum(want))}
+                chk.case(json.dumps(["coarse", ph["zm"], ph["L"], res, wd]))
+                if not close(ffm, want, 1e-7):
+                    chk.violation("coarse grid (cells of %g m under a %g m tower, wd=%s): the cells add up to %.4f, the closed form at the cell centres times the cell area adds up to %.4f; cell by cell they differ by up to %.3e relative"
+                                  % (res, ph["zm"], wd, float(np.sum(ffm)), float(np.sum(want)), float(np.max(np.abs(np.asarray(ffm) - want) / np.maximum(np.abs(want), 1e-300)))), sc, klass={"check": "coarse_grid"})
+    return n
+
+
 def captured_mass(chk, t):
     """the sum tends to the regularised incomplete gamma Q(mu, xi / X) captured within the upwind extent X, as the grid is refined"""
     from scipy.special import gammaincc
@@ -439,6 +470,7 @@ def main():
     chk.extra["grid_calls"] = ng
     na = arbitrary_angles(chk, rng, 60 if t == "quick" else 1500)
     nm = captured_mass(chk, t)
+    chk.extra["coarse_grid_cases"] = coarse_grids(chk)
     # (c) z0
     hws = [1, 22, 22.5, 45, 88.5, 89] if t == "quick" else [1, 1.5, 2, 2.5, 3, 5, 8, 10, 15, 20, 21, 21.5, 22, 22.5, 23, 30, 44, 44.5, 45, 46, 60, 75, 88, 88.5, 89]
     nz = replay_z0(chk, runs["MC_KMZ0_" + t].emitted, hws, rng)
